@@ -26,11 +26,14 @@ SPEC = {
                 "go-libp2p-gorpc v0.1.3: the authorize function is consulted for every remote call and never for a call through the local server object (observed by the grid, not proved)",
                 "harness/root/rig_c07_test.go fakes: consensus over an in-memory dsstate delegating IsTrustedPeer/Trust/Distrust to the real raft / crdt component; benign IPFS connector and tracker",
                 "go-libp2p-pubsub topic validators and message signing (the validator's verdict is what is modelled)"],
-    "level_text": "Theorems (Props/C07.v, 21, all closed): the decision function translated from the authF literal equals the modelled one; the policy table "
+    "level_text": "Theorems (Props/C07.v, 44, all closed): the decision function translated from the authF literal equals the modelled one; the policy table "
                   "regenerated from rpc_policy.go is total on / limited to the method set regenerated from rpc_api.go; for EVERY endpoint name an untrusted caller "
                   "is let in only on the hand-written open_spec; every local_only_spec endpoint is refused to every remote caller under every trust function; "
                   "trust_crdt follows configuration and every Trust/Distrust history; broadcasts signed by an untrusted peer never get through the validator. "
-                  "Tied to the code by two translators re-run at every check and by an exhaustive grid of real libp2p RPCs plus real crdt components",
+                  "Tied to the code by two translators re-run at every check and by an exhaustive grid of real libp2p RPCs plus real crdt components. "
+                  "Monitor theorems (21 of the 44, Proofs/C07_Monitor.v): for every case kind the run-time monitors (codes 1, 2) are sound w.r.t. these "
+                  "statements on the observation, the model's own output passes every monitor for every endpoint name, caller, trust configuration, "
+                  "history, configuration file value and message list (no guard), and on any case absence of code 1 implies absence of every code",
     "level_note": "finite table obligations are settled by vm_compute on the regenerated tables (bound = the table); gorpc's call path and pubsub's validator "
                   "dispatch are observed, not modelled; transitive propagation through a third peer that trusts the publisher is the code's design and is not excluded",
     "assumptions": ["libp2p authenticates the remote peer id handed to authF (secio/tls/noise handshake)",
